@@ -486,7 +486,11 @@ func runBatch(cfg *Config, rep *Report, ks *known.Set, cases []*Case) error {
 				for _, w := range mr.DontCares {
 					rep.DontCare[strings.SplitN(w, "@", 2)[0]]++
 				}
-				continue
+				// relational documents: the model has no opinion, but the two decoding paths must still agree (and
+				// neither may panic)
+				if !(cfg.Parity && d.Class == "formatparity") {
+					continue
+				}
 			}
 			if cfg.Own != nil && !cfg.Own(d, mr) {
 				continue
@@ -602,6 +606,9 @@ func decide(cfg *Config, rep *Report, ks *known.Set, p pending, res *batch.Res) 
 	}
 	if cfg.Parity && strings.HasPrefix(p.mode, "yaml") {
 		return // the YAML path is judged against the JSON path (parity), not against the model
+	}
+	if p.mr.V == model.DontCare {
+		return // executed for parity / totality only
 	}
 	toolAccept := res.V == "ok"
 	if toolAccept {
